@@ -16,7 +16,9 @@ EXTENDS Naturals, Sequences, FiniteSets
 
 CONSTANTS Conns,        \* connections open on the port
           MaxOut,       \* bound on frames a connection hands to the TNC
-          MatchByPort   \* deviation
+          MatchByPort,  \* deviation
+          Timeouts,     \* how many polls may give up before their reply has come (the 30 s of numOutstandingFrames)
+          OneShotBuffered \* TRUE: the code (demux.NextFrame: a one-shot request has room for its one frame); FALSE: deviation
 
 VARIABLES pc,       \* per connection: "open" (may write), "wopen" (Write's own poll for room is open), "poll" (Flush: about to
                     \* send a poll), "wait" (poll sent, one-shot request registered), "flushed" (Flush returned)
@@ -24,42 +26,58 @@ VARIABLES pc,       \* per connection: "open" (may write), "wopen" (Write's own 
           out,      \* frames of the connection the TNC has not yet transmitted
           pending,  \* polls the TNC has received and not yet answered
           wire,     \* replies on the link TNC -> host, in order: <<connection, count>>
-          seen      \* per connection: the reply its last poll was answered with, <<connection, count>> (or <<>>)
+          seen,     \* per connection: the reply its last poll was answered with, <<connection, count>> (or <<>>)
+          stale,    \* per connection: one-shot requests nobody waits for any more, still registered in the demux
+          blocked,  \* the demux goroutine is stuck handing a frame to a request nobody waits for
+          nto       \* polls that gave up so far
 
-vars == <<pc, written, out, pending, wire, seen>>
+vars == <<pc, written, out, pending, wire, seen, stale, blocked, nto>>
+tvs  == <<stale, blocked, nto>>
 
 Init == /\ pc = [c \in Conns |-> "open"] /\ written = [c \in Conns |-> 0] /\ out = [c \in Conns |-> 0]
         /\ pending = {} /\ wire = <<>> /\ seen = [c \in Conns |-> <<>>]
+        /\ stale = [c \in Conns |-> 0] /\ blocked = FALSE /\ nto = 0
 
 (* the application writes a frame (the window polling of Write is AgwpeTx.tla) *)
 Write(c) == /\ pc[c] = "open" /\ written[c] < MaxOut
             /\ written' = [written EXCEPT ![c] = @ + 1] /\ out' = [out EXCEPT ![c] = @ + 1]
-            /\ UNCHANGED <<pc, pending, wire, seen>>
-StartFlush(c) == /\ pc[c] \in {"open", "flushed"} /\ pc' = [pc EXCEPT ![c] = "poll"] /\ UNCHANGED <<written, out, pending, wire, seen>>
+            /\ UNCHANGED <<pc, pending, wire, seen, tvs>>
+StartFlush(c) == /\ pc[c] \in {"open", "flushed", "failed"} /\ pc' = [pc EXCEPT ![c] = "poll"] /\ UNCHANGED <<written, out, pending, wire, seen, tvs>>
 (* numOutstandingFrames: register the one-shot request, send the poll *)
 Poll(c) == /\ pc[c] = "poll" /\ pc' = [pc EXCEPT ![c] = "wait"] /\ pending' = pending \cup {c}
-           /\ UNCHANGED <<written, out, wire, seen>>
+           /\ UNCHANGED <<written, out, wire, seen, tvs>>
+(* the poll gives up: Flush / Write return the error; the one-shot request stays registered (it has no cancel) *)
+GiveUp(c) == /\ pc[c] \in {"wait", "wopen"} /\ nto < Timeouts
+             /\ pc' = [pc EXCEPT ![c] = "failed"] /\ stale' = [stale EXCEPT ![c] = @ + 1] /\ nto' = nto + 1
+             /\ UNCHANGED <<written, out, pending, wire, seen, blocked>>
 (* the same from Write (before and after the data frame; what Write does with the count is AgwpeTx.tla) *)
 PollW(c) == /\ pc[c] = "open" /\ pc' = [pc EXCEPT ![c] = "wopen"] /\ pending' = pending \cup {c}
-            /\ UNCHANGED <<written, out, wire, seen>>
+            /\ UNCHANGED <<written, out, wire, seen, tvs>>
 (* the TNC answers one of the polls it has received, with that connection's current count *)
 TncReply(c) == /\ c \in pending /\ pending' = pending \ {c} /\ wire' = Append(wire, <<c, out[c]>>)
-               /\ UNCHANGED <<pc, written, out, seen>>
+               /\ UNCHANGED <<pc, written, out, seen, tvs>>
 (* the TNC transmits (and gets acknowledged) one queued frame *)
-TncTransmit(c) == /\ out[c] > 0 /\ out' = [out EXCEPT ![c] = @ - 1] /\ UNCHANGED <<pc, written, pending, wire, seen>>
+TncTransmit(c) == /\ out[c] > 0 /\ out' = [out EXCEPT ![c] = @ - 1] /\ UNCHANGED <<pc, written, pending, wire, seen, tvs>>
 (* the demux chain routes the next reply *)
 Takes(c, r) == pc[c] \in {"wait", "wopen"} /\ (MatchByPort \/ r[1] = c)
-Deliver == /\ wire # <<>>
-           /\ LET r == Head(wire) IN
-              \/ \E c \in Conns : /\ Takes(c, r)
-                                   /\ seen' = [seen EXCEPT ![c] = r]
-                                   /\ pc' = [pc EXCEPT ![c] = IF pc[c] = "wopen" THEN "open" ELSE IF r[2] = 0 THEN "flushed" ELSE "poll"]
-              \/ /\ \A c \in Conns : ~Takes(c, r)          \* nobody asked: the frame is not for any request
-                 /\ UNCHANGED <<pc, seen>>
+Matches(c, r) == MatchByPort \/ r[1] = c
+Deliver == /\ wire # <<>> /\ ~blocked
+           /\ LET r == Head(wire)
+                  old == {c \in Conns : stale[c] > 0 /\ Matches(c, r)} IN
+              IF old # {} /\ ~OneShotBuffered
+                THEN \* the frame is handed to a request nobody receives from: the demux goroutine never gets past it
+                     /\ blocked' = TRUE /\ UNCHANGED <<pc, seen, stale>>
+                ELSE /\ stale' = [c \in Conns |-> IF c \in old THEN 0 ELSE stale[c]]     \* each takes its one frame and is gone
+                     /\ UNCHANGED blocked
+                     /\ \/ \E c \in Conns : /\ Takes(c, r)
+                                             /\ seen' = [seen EXCEPT ![c] = r]
+                                             /\ pc' = [pc EXCEPT ![c] = IF pc[c] = "wopen" THEN "open" ELSE IF r[2] = 0 THEN "flushed" ELSE "poll"]
+                        \/ /\ \A c \in Conns : ~Takes(c, r)          \* nobody is waiting for it
+                           /\ UNCHANGED <<pc, seen>>
            /\ wire' = Tail(wire)
-           /\ UNCHANGED <<written, out, pending>>
+           /\ UNCHANGED <<written, out, pending, nto>>
 
-Next == \/ \E c \in Conns : Write(c) \/ StartFlush(c) \/ Poll(c) \/ PollW(c) \/ TncReply(c) \/ TncTransmit(c)
+Next == \/ \E c \in Conns : Write(c) \/ StartFlush(c) \/ Poll(c) \/ PollW(c) \/ GiveUp(c) \/ TncReply(c) \/ TncTransmit(c)
         \/ Deliver
 Spec == Init /\ [][Next]_vars
 FairSpec == /\ Spec /\ WF_vars(Deliver)
@@ -70,9 +88,11 @@ FlushSound == \A c \in Conns : pc[c] = "flushed" => out[c] = 0
 (* a poll is answered by a report about the polling connection *)
 OwnReport == \A c \in Conns : seen[c] # <<>> => seen[c][1] = c
 (* at most one poll per connection is open *)
-OnePoll == \A c \in Conns : (c \in pending \/ \E i \in 1..Len(wire) : wire[i][1] = c) => pc[c] \in {"wait", "wopen"} \/ MatchByPort
+OnePoll == \A c \in Conns : (c \in pending \/ \E i \in 1..Len(wire) : wire[i][1] = c) => pc[c] \in {"wait", "wopen"} \/ MatchByPort \/ nto > 0
 (* a flush, once started, ends (the TNC transmits and answers) *)
-FlushEnds == \A c \in Conns : (pc[c] = "poll") ~> (pc[c] = "flushed")
-Bounded == Len(wire) <= Cardinality(Conns) + 1
+FlushEnds == \A c \in Conns : (pc[c] = "poll") ~> (pc[c] \in {"flushed", "failed"})
+(* a reply that comes after its request has given up does not stop the demux: later frames are still delivered *)
+DemuxLive == ~blocked
+Bounded == Len(wire) <= Cardinality(Conns) + 1 + nto
 WireSmall == Len(wire) <= 3
 =============================================================================
